@@ -398,7 +398,12 @@ class FormulTranslator:
                 self.fail(st, 'expected `%s`' % text)
         # _add_mesh_currents
         fn = meth['_add_mesh_currents']
-        if [a.arg for a in fn.args.args] != ['self', 'loop', 'loops', 'node_names', 'mesh_currents']:
+        sig = [a.arg for a in fn.args.args]
+        if sig == ['self', 'loop', 'loops', 'node_names', 'mesh_currents']:
+            by_edge = False
+        elif sig == ['self', 'loop', 'loops', 'elt', 'node_names', 'mesh_currents']:
+            by_edge = True
+        else:
             self.fail(fn, 'unexpected signature')
         b = [s for s in fn.body if not is_doc(s)]
         if len(b) != 3:
@@ -412,29 +417,47 @@ class FormulTranslator:
             self.fail(b[0], 'expected the accumulated current to start from the zero of the analysis kind')
         expect(b[2], 'return current')
         lp = b[1]
-        if not (isinstance(lp, ast.For) and src(lp.target) == '(n, loop2)' and src(lp.iter) == 'enumerate(loops)' and not lp.orelse and len(lp.body) == 4):
+        if not (isinstance(lp, ast.For) and src(lp.target) == '(n, loop2)' and src(lp.iter) == 'enumerate(loops)' and not lp.orelse
+                and len(lp.body) == (3 if by_edge else 4)):
             self.fail(lp, 'unexpected loop over the meshes')
         expect(lp.body[0], 'loop2 = loop2.copy()')
         expect(lp.body[1], 'loop2.append(loop2[0])')
-        expect(lp.body[2], 'if node_names[0] not in loop2 or node_names[1] not in loop2:\n    continue')
-        sc = lp.body[3]
-        if not (isinstance(sc, ast.For) and src(sc.target) == 'l' and src(sc.iter) == 'range(len(loop2) - 1)' and not sc.orelse and len(sc.body) == 1
-                and isinstance(sc.body[0], ast.If) and len(sc.body[0].orelse) == 1 and isinstance(sc.body[0].orelse[0], ast.If) and not sc.body[0].orelse[0].orelse):
-            self.fail(sc, 'unexpected scan of a mesh')
-        i1, i2 = sc.body[0], sc.body[0].orelse[0]
-        expect(i1.test, 'node_names[0] == loop2[l] and node_names[1] == loop2[l + 1]')
-        expect(i2.test, 'node_names[1] == loop2[l] and node_names[0] == loop2[l + 1]')
-        signs = []
-        for br in (i1, i2):
-            if len(br.body) != 2 or src(br.body[1]) != 'break':
-                self.fail(br, 'unexpected branch of the mesh scan')
-            t = src(br.body[0])
+
+        def upd(st):
+            t = src(st)
             if t == 'current -= mesh_currents[n]':
-                signs.append('(fopp 1)')
-            elif t == 'current += mesh_currents[n]':
-                signs.append('1')
-            else:
-                self.fail(br.body[0], 'unsupported mesh-current update')
+                return '(fopp 1)'
+            if t == 'current += mesh_currents[n]':
+                return '1'
+            self.fail(st, 'unsupported mesh-current update')
+        signs = []
+        if not by_edge:
+            # crediting by adjacency of the element's equipotential node names in the node list of the mesh
+            expect(lp.body[2], 'if node_names[0] not in loop2 or node_names[1] not in loop2:\n    continue')
+            sc = lp.body[3]
+            if not (isinstance(sc, ast.For) and src(sc.target) == 'l' and src(sc.iter) == 'range(len(loop2) - 1)' and not sc.orelse and len(sc.body) == 1
+                    and isinstance(sc.body[0], ast.If) and len(sc.body[0].orelse) == 1 and isinstance(sc.body[0].orelse[0], ast.If) and not sc.body[0].orelse[0].orelse):
+                self.fail(sc, 'unexpected scan of a mesh')
+            i1, i2 = sc.body[0], sc.body[0].orelse[0]
+            expect(i1.test, 'node_names[0] == loop2[l] and node_names[1] == loop2[l + 1]')
+            expect(i2.test, 'node_names[1] == loop2[l] and node_names[0] == loop2[l + 1]')
+            for br in (i1, i2):
+                if len(br.body) != 2 or src(br.body[1]) != 'break':
+                    self.fail(br, 'unexpected branch of the mesh scan')
+                signs.append(upd(br.body[0]))
+        else:
+            # crediting by the element itself: the first step of the mesh whose graph edge carries this component;
+            # it runs forward when it starts at the element's first node (a parallel component hangs between its
+            # first node and a dummy node of the graph)
+            sc = lp.body[2]
+            if not (isinstance(sc, ast.For) and src(sc.target) == 'l' and src(sc.iter) == 'range(len(loop2) - 1)' and not sc.orelse and len(sc.body) == 3):
+                self.fail(sc, 'unexpected scan of a mesh')
+            expect(sc.body[0], 'if self.cg.component(loop2[l], loop2[l + 1]) is not elt:\n    continue')
+            br = sc.body[1]
+            if not (isinstance(br, ast.If) and src(br.test) == 'node_names[0] == loop2[l]' and len(br.body) == 1 and len(br.orelse) == 1):
+                self.fail(br, 'unexpected direction test in the mesh scan')
+            signs = [upd(br.body[0]), upd(br.orelse[0])]
+            expect(sc.body[2], 'break')
         # _process_loop
         fn = meth['_process_loop']
         if [a.arg for a in fn.args.args] != ['self', 'loop', 'mesh_current', 'loops', 'mesh_currents']:
@@ -471,13 +494,20 @@ class FormulTranslator:
                 self.fail(st, 'unsupported voltage term')
             return sg
         sv = vterm(vi.body[0], 'mesh_current')
-        expect(vi.orelse[0], 'current = self._add_mesh_currents(loop, loops, node_names, mesh_currents)')
+        expect(vi.orelse[0], 'current = self._add_mesh_currents(loop, loops, elt, node_names, mesh_currents)' if by_edge else
+               'current = self._add_mesh_currents(loop, loops, node_names, mesh_currents)')
         sp_ = vterm(vi.orelse[1], 'current')
+        first_only = False
         t = src(s[5])
         if t == 'is_reversed = node_names[0] == loop1[j] and node_names[1] == loop1[j + 1]':
             rev_fwd = True
         elif t == 'is_reversed = node_names[1] == loop1[j] and node_names[0] == loop1[j + 1]':
             rev_fwd = False
+        elif t == 'is_reversed = node_names[0] == loop1[j]':
+            # the step starts at the element's first node (also right for a parallel component, whose graph edge
+            # runs from its first node to a dummy node)
+            rev_fwd = True
+            first_only = True
         else:
             self.fail(s[5], 'unsupported orientation test')
         expect(s[6], 'if is_reversed:\n    v = -v')
@@ -499,7 +529,7 @@ class FormulTranslator:
         if txt != want:
             self.fail(fn, 'unexpected body of LoopAnalysis._make_equations')
         self.mesh = {'line': meth['_process_loop'].lineno, 'credit_fwd': signs[0], 'credit_bwd': signs[1],
-                     'vs_sign': sv, 'pas_sign': sp_, 'rev_fwd': rev_fwd, 'acc': acc}
+                     'vs_sign': sv, 'pas_sign': sp_, 'rev_fwd': rev_fwd, 'acc': acc, 'by_edge': by_edge, 'first_only': first_only}
 
     # ---- state-space substitution model -------------------------------------------------
     def translate_ss(self):
@@ -621,6 +651,10 @@ def emit(tr):
     out.append('Definition ss_L_src : K := %s.\nDefinition ss_L_var : K := %s.\nDefinition ss_C_src : K := %s.\nDefinition ss_C_var : K := %s.\n' % (
         x['L_src'], x['L_var'], x['C_src'], x['C_var']))
     out.append('End Gen.')
+    out.append('(* LoopAnalysis: are mesh currents credited to the component itself (graph edge) or by adjacency of its node names; '
+               'is the walking direction decided from the first node only *)')
+    out.append('Definition mesh_credit_by_edge : bool := %s.\nDefinition mesh_fwd_first_only : bool := %s.' % (
+        'true' if m['by_edge'] else 'false', 'true' if m['first_only'] else 'false'))
     out.append('(* is_source flag that from_circuit passes to current_sign for the capacitor current i_C / C *)')
     out.append('Definition ss_C_dot_is_source : bool := %s.' % x['C_dot_is_source'])
     for nm in names + ['nodal_contrib', 'nodal_vsrc', 'mesh_credit_fwd', 'mesh_credit_bwd', 'mesh_term', 'ss_L_src', 'ss_L_var', 'ss_C_src', 'ss_C_var']:
